@@ -1,15 +1,18 @@
-\* quick: every input of N = 8 samples over {0, 1}, every partition into process calls of 1..8 frames,
-\* delay d = 1..3 frames, feedback gain 0/1, nested gain 0/1, mix dry/wet.  Model of delay.rs as it is.
-\* PropertyHolds = the model satisfies the P_C13 monitor (echo definition, dry identity, silence) in every state;
-\* BufferIsLine / OutputSoFar = chunk independence on the state.  W_* (checks/c13.py) must each be violated.
-\* d = 0 (delay shorter than a frame, known finding) is checked separately (checks/c13.py, DelayLine with Ds = {0}).
+\* quick (the same constants checks/c13.py uses): every input of N = 7 samples over {0, 1}, EVERY partition of it into
+\* process calls of 1..7 frames, delay d = 1..3 frames, feedback gain 0/1, gain 0/1 nested in the feedback path, mix dry/wet.
+\* Model of delay.rs as it is (SubFrameFixed = FALSE).
+\* Measured: 352 256 distinct states, depth 12, about 20 s on 4 workers.
+\* PropertyHolds = the model satisfies the P_C13 monitor (echo definition, dry identity, silence) in every state; Strict = without
+\* the named known finding; BufferIsLine / OutputSoFar = chunk independence stated on the state.
+\* checks/c13.py additionally runs Ds = {0} (delay shorter than a frame: PropertyHolds holds only through KnownFinding_SubFrameDelay,
+\* W_ZeroDelayPanics must be violated) and the reachability witnesses W_* (each must be violated) with N = 6, Ds = {1, 2}.
 SPECIFICATION Spec
 CONSTANTS
-  N = 8
+  N = 7
   Vals = {0, 1}
   Ds = {1, 2, 3}
   NGs = {0, 1}
-  B = 8
+  B = 7
   InMode = "all"
   SubFrameFixed = FALSE
 INVARIANTS PropertyHolds Strict TypeOK BufferIsLine OutputSoFar
